@@ -1017,7 +1017,9 @@ MANIFEST = {
                   "offset, positive interval, label count, position and mode under the explicit hypothesis that the "
                   "position is on a sample or outside the tolerance band (Separated), with a band-width theorem over "
                   "the generated tolerances, the unrestricted statement kept as a Prop with a proved counterexample; "
-                  "range_indices for all three kinds; round trips and axes.",
+                  "range_indices for all three kinds; round trips and axes. Two defects of the pinned tree were "
+                  "repaired in /repo (fix: 2389173 first-sample guard on the scaled position; fix: 6411d29 explicit "
+                  "rtol=1e-12/atol=1e-8) and stay in the corpus and the oracle's fixed case list.",
     "level_note": "Trusted: Lean kernel; axioms propext/Classical.choice/Quot.sound; the dimensions.py translator; the "
                   "Rat stand-ins for IEEE doubles, np.isclose, np.round, np.floor, np.where (exercised by an exact "
                   "dyadic stream that must agree exactly and an arbitrary-double stream with counted marginal cases). "
